@@ -420,8 +420,14 @@ class RaftNode(Entity):
             )
             return [resp]
 
-        if term >= self._current_term:
+        if term > self._current_term:
             self._step_down(term)
+        elif self._state != RaftState.FOLLOWER:
+            # Same term: yield to the established leader, but keep the vote cast in this term
+            self._state = RaftState.FOLLOWER
+            if self._heartbeat_event:
+                self._heartbeat_event.cancel()
+                self._heartbeat_event = None
         self._leader = leader_id
         self._current_term = term
 
